@@ -169,10 +169,15 @@ void HistSim::opSer(const Op& op, size_t ix) {
     bool jsonRaw = false, binRaw = false;
     visitc(*node, [&](const Val& x) {
       if (x.k == K::Raw) {
-        if (!x.s.empty() && (unsigned char)x.s[0] >= 0x80)
+        std::string pl;
+        int8_t ty = 0;
+        if (asBin(x.s, pl) || asExt(x.s, ty, pl)) {
           binRaw = true;
-        else
-          jsonRaw = true;
+        } else {
+          jsonRaw = true;  // a fragment of the caller's own making (possibly bytes that only look like bin/ext)
+          if (!x.s.empty() && (unsigned char)x.s[0] >= 0x80)
+            binRaw = true;
+        }
       }
     });
     if (fmt == "mp" && jsonRaw) {
@@ -347,7 +352,9 @@ void HistSim::opFill(const Op& op, size_t ix) {
         if (g.usedSlots > limit)
           violate("C19:id-wrap", "more slots handed out (" + std::to_string(g.usedSlots) + ") than slot ids exist (" +
                                      std::to_string(limit) + ")");
-        if ((limit - g.usedSlots) + g.freeListLen >= need)
+        if (g.deadPools > 0)
+          count("limit.after_dead_pool");  // an earlier (injected) failure left a pool without storage: its ids are gone until clear()
+        else if ((limit - g.usedSlots) + g.freeListLen >= need)
           violate("C19:premature-limit", "add() failed although " + std::to_string(limit - g.usedSlots) +
                                              " slot ids and " + std::to_string(g.freeListLen) +
                                              " free slots remain (used " + std::to_string(g.usedSlots) + ")");
@@ -980,6 +987,29 @@ struct Gen {
         return op;
       }
     }
+    if (r.chance(1, 30)) {
+      // a string related by an embedded NUL to one a document already holds: its prefix up to the first NUL,
+      // or the same characters followed by a NUL and more (lookups that stop at a NUL confuse the two)
+      std::vector<std::string> held;
+      for (size_t i = 0; i < refs.size(); i++)
+        visitc(*sim.nodeOf(*refs[i]), [&](const Val& x) {
+          if (x.k == K::Str && held.size() < 64)
+            held.push_back(x.s);
+          for (auto& m : x.o)
+            if (held.size() < 64)
+              held.push_back(m.first);
+        });
+      if (!held.empty()) {
+        std::string base = held[r.below(held.size())];
+        size_t nul = base.find('\0');
+        std::string ns = nul != std::string::npos ? base.substr(0, nul) : base + std::string(1, '\0') + (r.chance(1, 2) ? "tail" : "");
+        size_t h = pickRef('v');
+        op = mkop("sets");
+        op.setu("h", h).set("s", pickSel(*sim.nodeOf(*refs[h]), false).text()).set("v", toText(Val::str(ns, false)));
+        via(3);
+        return op;
+      }
+    }
     if (mode == "limit" && r.chance(1, 8)) {
       op = mkop("longset");
       static const char* wh[] = {"value", "value", "key"};
@@ -1098,6 +1128,7 @@ struct Gen {
       bool mp = r.chance(1, 2);
       dv.allowNonFinite = true;  // JSON: written as null, or NaN/Infinity where the build's dialect has them
       dv.allowBin = mp;
+      dv.malformedBin = false;  // the value travels as MessagePack: it has to be well-formed
       dv.maxDepth = 3;
       Val v = genValue(r, dv);
       size_t h = pickRef();
@@ -1144,6 +1175,7 @@ Options optionsFromHead(const Op& head) {
       "copy:self:owned-string", "copy:self:container", "copy:src-inside-dst:owned-string",
       "copy:src-inside-dst:container", "copy:dst-inside-src:container", "cset:self",
       "cset:src-inside-dst", "cset:dst-inside-src", "docset:self", "docset:own-descendant",
+      "ovf:shrink-burnt-pool-ids",
   };
   for (auto k : known)
     o.known.insert(k);
@@ -1209,7 +1241,8 @@ Plan generate(const std::string& mode, uint64_t seed, uint64_t run) {
   Plan p;
   p.head.set("family", "hist").set("mode", mode).setu("seed", seed).setu("run", run);
   int ndocs = int(r.range(1, 3));
-  if (mode == "limit")
+  bool limitFault = mode == "limitfault";
+  if (mode == "limit" || limitFault)
     ndocs = 1;
   p.head.set("docs", ndocs);
   p.head.set("share", r.chance(1, 4) ? 1 : 0);
@@ -1220,6 +1253,7 @@ Plan generate(const std::string& mode, uint64_t seed, uint64_t run) {
   Gen g{r, sim, GenOpts(), mode};
   g.vo.allowRaw = true;
   g.vo.allowBin = true;
+  g.vo.malformedBin = true;
   g.vo.allowLinked = true;
   g.vo.maxDepth = 3;
   g.vo.maxWidth = 4;
@@ -1234,6 +1268,31 @@ Plan generate(const std::string& mode, uint64_t seed, uint64_t run) {
   }
   else
     nops = r.chance(1, 5) ? size_t(r.range(40, 80)) : size_t(r.range(5, 40));
+  if (limitFault) {
+    // the way to the slot limit with one allocation failing on it (every position in turn, see execute()):
+    // the failed pool must not come back in a shape that hands out ids the document cannot address
+    p.head.set("mode", "faultenum");
+    static const char* kinds[] = {"int", "big", "int"};
+    Op prep = mkop("to");
+    prep.setu("h", 0).set("kind", "a").set("via", 0);
+    p.ops.push_back(prep);
+    sim.step(prep, 0);
+    Op fill = mkop("fill");
+    fill.setu("h", 0).setu("n", 0).set("kind", kinds[r.below(3)]).set("extra", r.range(0, 5));
+    p.ops.push_back(fill);
+    Op more = mkop("fill");
+    more.setu("h", 0).setu("n", uint64_t(r.range(1, 4))).set("kind", "int");
+    p.ops.push_back(more);
+    nops = size_t(r.range(0, 3));
+    Gen g2{r, sim, g.vo, "limit"};
+    for (size_t i = 0; i < nops; i++) {
+      Op op = g2.next();
+      size_t ix = p.ops.size();
+      sim.step(op, ix);
+      p.ops.push_back(op);
+    }
+    return p;
+  }
   if (mode == "limit") {
     // reach the slot limit, then keep working at the edge
     static const char* kinds[] = {"int", "big", "str"};
@@ -1321,7 +1380,7 @@ RunResult runOnce(const Plan& plan, const Options& o, char replica, std::string*
   }
   sim.finish();
   rr.hash = t.h;
-  rr.obs = sim.obs.h;
+  rr.obs = sim.obsInvalid ? 0 : sim.obs.h;
   rr.steps = t.events;
   return rr;
 }
@@ -1394,7 +1453,9 @@ Outcome execute(const Plan& plan) {
     if (o.mode == "faultenum") {
       // every single-failure position and every fail-from position of every operation
       for (size_t i = 0; i < plan.ops.size(); i++) {
-        for (uint64_t k = 1; k <= base.failable[i] && k <= 64; k++) {
+        // (a fill on the way to the slot limit asks for every pool there is: up to 255 + the growth of the table)
+        uint64_t cap = plan.ops[i].name() == "fill" ? 300 : 64;
+        for (uint64_t k = 1; k <= base.failable[i] && k <= cap; k++) {
           for (int from = 0; from < 2; from++) {
             Plan q = plan;
             q.head.set("mode", "fault");
